@@ -864,6 +864,7 @@ def _prior(case, ctx, g):
         pr = P.LKJCovariancePrior(n, eta, sdp)
         lkj = P.LKJPrior(n, eta)
         got, ref = [], []
+        worst_cond = 1.0
         for _ in range(30):
             A = util.randn(g, n, n)
             S = A @ A.T + 0.3 * torch.eye(n)
@@ -873,6 +874,7 @@ def _prior(case, ctx, g):
             sd = [math.sqrt(float(S[i, i])) for i in range(n)]
             R = torch.tensor([[float(S[i, j]) / (sd[i] * sd[j]) for j in range(n)] for i in range(n)])
             R = 0.5 * (R + R.T)
+            worst_cond = max(worst_cond, float(torch.linalg.cond(R)))
             with torch.no_grad():
                 # with a scalar-event sd prior the library returns one entry per standard deviation: LKJ term + that sd's term
                 try:
@@ -881,7 +883,8 @@ def _prior(case, ctx, g):
                     ctx.fail("prior_log_prob", f"LKJCovariancePrior.log_prob of a valid covariance matrix raised {type(e).__name__}: {str(e)[:100]}", "raise", prior=name)
                     return ctx.cell({k: v for k, v in case.items() if k != "seed"})
                 ref.append(float(lkj.log_prob(R).reshape(-1).sum()) + torch.as_tensor(st.gamma(a_, scale=1 / b_).logpdf(sd)))
-        ctx.close("prior_log_prob", torch.stack(got), torch.stack(ref), (1e-8, 1e-8), cls=cls)
+        # (the log-determinant of a nearly singular correlation matrix loses cond * eps digits on both sides: thorough seed 1)
+        ctx.close("prior_log_prob", torch.stack(got), torch.stack(ref), (max(1e-8, min(1e-12 * worst_cond, 1e-4)), 1e-8), cls=cls)
         ctx.hit("prior_normalised", 0)
     elif name in ("LKJPrior", "LKJCholeskyFactorPrior"):
         n, eta = (3, 1.5) if var == 0 else (4, 0.7)
